@@ -1,0 +1,18 @@
+//go:build verif
+
+package meta
+
+// C14 (metrics retention): a tags-tree directory is removed only if no
+// surviving (preserved) metrics segment still uses it.
+// Checked by /verif/bin/govc.  Comment-only file.
+
+//@ func removeMetricsSegmentsByList
+//@   props C14
+//@   loop 2:
+//@     invariant -1 <= rangeindex && rangeindex < len(preservedEntries)
+//@     invariant forall(k, 0, rangeindex+1, !haskey(tagsTreeToDelete, preservedEntries[k].TTreeDir))
+//@   loop 3:
+//@     invariant implies(entriesRemoved > 0 && len(preservedEntries) > 0, forall(k, 0, len(preservedEntries), !haskey(tagsTreeToDelete, preservedEntries[k].TTreeDir)))
+//@   site call os.RemoveAll #3:
+//@     assert [tags-tree-not-used-by-a-survivor] implies(entriesRemoved > 0, forall(k, 0, len(preservedEntries), preservedEntries[k].TTreeDir != ttreeDir))
+//@ end
